@@ -284,6 +284,13 @@ def _closest_points_on_segments_2d(a0x: float, a0y: float, a1x: float, a1y: floa
     if den > 0.0:
         s = (B * E - C * D) / den
         t = (A * E - B * D) / den
+    elif C > 0.0:
+        # parallel segments (or first segment degenerate): keep s = 0 and
+        # project that point onto the second segment; clamping below fixes s
+        t = E / C
+    elif A > 0.0:
+        # second segment is a single point: project it onto the first segment
+        s = -D / A
 
     # clamp and recompute as needed
     if s < 0.0:
